@@ -3,9 +3,10 @@
    Source programs are lists of top-level [item]s over abstract statements:
    an observable marker (optionally touching a device), a device declaration,
    an integer assignment / print (variable lifetime), an LCD animation start,
-   [break], and the two nested block shapes that matter for the [break] guard
-   and for declaration promotion ([if x:] keeps loop_depth, [for _ in range(k):]
-   increments it).
+   [break], and the nested block shapes that matter for the [break] guard
+   and for declaration promotion ([if x: ... else: ...] and [try: ... except: ...] keep
+   loop_depth and parse every branch in its own child ctx, [for _ in range(k):] and
+   [while x:] increment it).
 
    [split]     = where parse() puts each top-level statement (setup_body / loop_body)
    [inject]    = ButtonPoll / LCDTick nodes prepended to loop_body (polls, then ticks,
@@ -86,8 +87,10 @@ Inductive stmt :=
 | SShow (dev : name) (x : name)          (* mon.write(x) *)
 | SAnim (lcd : name)                     (* lcd.animate(...) *)
 | SBreak
-| SIf (x : name) (body : list stmt)      (* if x:   (same loop depth, depth+1) *)
-| SFor (cnt : nat) (body : list stmt).   (* for _ in range(cnt):   (loop depth+1) *)
+| SIf (x : name) (body els : list stmt)  (* if x: body [else: els]   (same loop depth, depth+1; one child ctx per branch) *)
+| SFor (cnt : nat) (body : list stmt)    (* for _ in range(cnt):   (loop depth+1) *)
+| SWhile (x : name) (body : list stmt)   (* while x:   (loop depth+1; not the column-0 [while True:]) *)
+| STry (body handler : list stmt).       (* try: body / except: handler   (same loop depth, depth+1; one child ctx each) *)
 
 Inductive item :=
 | IStmt (s : stmt)                       (* any top-level statement that is not a column-0 [while True:] *)
@@ -98,24 +101,30 @@ Inductive item :=
 Fixpoint decls_stmt (s : stmt) : list decl :=
   match s with
   | SDecl d => [d]
-  | SIf _ b => flat_map decls_stmt b
+  | SIf _ b e => flat_map decls_stmt b ++ flat_map decls_stmt e
   | SFor _ b => flat_map decls_stmt b
+  | SWhile _ b => flat_map decls_stmt b
+  | STry b h => flat_map decls_stmt b ++ flat_map decls_stmt h
   | _ => []
   end.
 
 Fixpoint anims_stmt (s : stmt) : list name :=
   match s with
   | SAnim l => [l]
-  | SIf _ b => flat_map anims_stmt b
+  | SIf _ b e => flat_map anims_stmt b ++ flat_map anims_stmt e
   | SFor _ b => flat_map anims_stmt b
+  | SWhile _ b => flat_map anims_stmt b
+  | STry b h => flat_map anims_stmt b ++ flat_map anims_stmt h
   | _ => []
   end.
 
 Fixpoint assigned_stmt (s : stmt) : list name :=
   match s with
   | SSet x _ => [x]
-  | SIf _ b => flat_map assigned_stmt b
+  | SIf _ b e => flat_map assigned_stmt b ++ flat_map assigned_stmt e
   | SFor _ b => flat_map assigned_stmt b
+  | SWhile _ b => flat_map assigned_stmt b
+  | STry b h => flat_map assigned_stmt b ++ flat_map assigned_stmt h
   | _ => []
   end.
 
@@ -198,7 +207,8 @@ Fixpoint split_d (declared : list name) (its : list item)
 Inductive irn :=
 | NMark (id : Z) | NDecl (nm : name) | NVarDecl (x : name) | NVarAssign (x : name)
 | NShow (x : name) | NAnim (l : name) | NBreak
-| NIf (x : name) (b : list irn) | NFor (cnt : nat) (b : list irn)
+| NIf (x : name) (b e : list irn) | NFor (cnt : nat) (b : list irn)
+| NWhile (x : name) (b : list irn) | NTry (b h : list irn)
 | NPoll (b : name) | NTick (l : name).
 
 (* declarations promoted out of a block ([_make_promotion_decls]): globals at setup depth 0
@@ -208,6 +218,11 @@ Definition prom (top in_setup : bool) (nn : list name) : list irn :=
   if top && in_setup then [] else if top then map NVarDecl nn else map NVarAssign nn.
 
 Fixpoint ir_stmt (top in_setup : bool) (declared : list name) (s : stmt) : list irn :=
+  let blk := fix go (d : list name) (l : list stmt) : list irn :=
+               match l with
+               | [] => []
+               | s1 :: r => ir_stmt false in_setup d s1 ++ go (d ++ assigned_stmt s1) r
+               end in
   match s with
   | SMark id _ => [NMark id]
   | SDecl d => [NDecl (d_name d)]
@@ -218,20 +233,14 @@ Fixpoint ir_stmt (top in_setup : bool) (declared : list name) (s : stmt) : list 
   | SShow _ x => [NShow x]
   | SAnim l => [NAnim l]
   | SBreak => [NBreak]
-  | SIf x body =>
-      prom top in_setup (fresh declared (flat_map assigned_stmt body)) ++
-      [NIf x ((fix go (d : list name) (l : list stmt) : list irn :=
-                 match l with
-                 | [] => []
-                 | s1 :: r => ir_stmt false in_setup d s1 ++ go (d ++ assigned_stmt s1) r
-                 end) declared body)]
+  | SIf x body els =>                    (* every branch is parsed from the ctx of the [if] line *)
+      prom top in_setup (fresh declared (assigned_stmt s)) ++ [NIf x (blk declared body) (blk declared els)]
   | SFor cnt body =>
-      prom top in_setup (fresh declared (flat_map assigned_stmt body)) ++
-      [NFor cnt ((fix go (d : list name) (l : list stmt) : list irn :=
-                    match l with
-                    | [] => []
-                    | s1 :: r => ir_stmt false in_setup d s1 ++ go (d ++ assigned_stmt s1) r
-                    end) declared body)]
+      prom top in_setup (fresh declared (assigned_stmt s)) ++ [NFor cnt (blk declared body)]
+  | SWhile x body =>
+      prom top in_setup (fresh declared (assigned_stmt s)) ++ [NWhile x (blk declared body)]
+  | STry body h =>                       (* the try body and the handler each from the ctx of the [try] line *)
+      prom top in_setup (fresh declared (assigned_stmt s)) ++ [NTry (blk declared body) (blk declared h)]
   end.
 
 Fixpoint ir_list (top in_setup : bool) (declared : list name) (l : list stmt) : list irn :=
@@ -260,15 +269,30 @@ Definition ir_loop (its : list item) : list irn :=
 Fixpoint marks_stmt (s : stmt) : list Z :=
   match s with
   | SMark id _ => [id]
-  | SIf _ b => flat_map marks_stmt b
+  | SIf _ b e => flat_map marks_stmt b ++ flat_map marks_stmt e
   | SFor _ b => flat_map marks_stmt b
+  | SWhile _ b => flat_map marks_stmt b
+  | STry b h => flat_map marks_stmt b ++ flat_map marks_stmt h
   | _ => []
   end.
 
 Fixpoint marks_irn (n : irn) : list Z :=
   match n with
   | NMark id => [id]
-  | NIf _ b => flat_map marks_irn b
+  | NIf _ b e => flat_map marks_irn b ++ flat_map marks_irn e
   | NFor _ b => flat_map marks_irn b
+  | NWhile _ b => flat_map marks_irn b
+  | NTry b h => flat_map marks_irn b ++ flat_map marks_irn h
+  | _ => []
+  end.
+
+(* the names an IR node list declares as C locals ([VarDecl] nodes), all depths, textual order *)
+Fixpoint vardecls_irn (n : irn) : list name :=
+  match n with
+  | NVarDecl x => [x]
+  | NIf _ b e => flat_map vardecls_irn b ++ flat_map vardecls_irn e
+  | NFor _ b => flat_map vardecls_irn b
+  | NWhile _ b => flat_map vardecls_irn b
+  | NTry b h => flat_map vardecls_irn b ++ flat_map vardecls_irn h
   | _ => []
   end.
